@@ -73,7 +73,7 @@ _job = 0
 
 
 def run(module, cfg=None, workers=16, timeout=1800, env=None, simulate=None, depth=None,
-        seed=None, coverage=False, deadlock=True, extra=(), heap=None):
+        seed=None, coverage=False, deadlock=True, extra=(), heap=None, stack="64m"):
     """Run TLC on specs/<module>.tla with specs/<cfg>.  Returns TLCResult; raises TLCError on
     machinery failure (parse error, crash, timeout).  A violated invariant is *not* an error here:
     callers decide what it means."""
@@ -81,7 +81,7 @@ def run(module, cfg=None, workers=16, timeout=1800, env=None, simulate=None, dep
     _job += 1
     meta = os.path.join(WORK, "tlc", f"{os.getpid()}_{_job}")
     os.makedirs(meta, exist_ok=True)
-    cmd = ["java", "-XX:+UseParallelGC"]
+    cmd = ["java", "-XX:+UseParallelGC", "-Xss" + stack]
     if heap:
         cmd.append("-Xmx" + heap)
     cmd += ["-cp", JAR, "tlc2.TLC", "-workers", str(workers), "-metadir", meta, "-noGenerateSpecTE",
